@@ -19,7 +19,13 @@ one() {
   new=$(comm -13 <(sed -E 's/\] .*/]/' "$work/base.txt" | sort -u) <(sed -E 's/\] .*/]/' "$work/res$n.txt" | sort -u))
   {
     echo "== $pf: $(echo "$new" | grep -c .) new"
-    if [ -n "$new" ]; then while IFS= read -r k; do grep -F -- "$k" "$work/res$n.txt" | head -1 | cut -c1-$W; done <<< "$new"; fi
+    if [ -n "$new" ]; then
+      i=0
+      while IFS= read -r k; do
+        i=$((i+1)); [ $i -gt ${MAXLINES:-8} ] && { echo " ... ($(echo "$new" | grep -c .) in all)"; break; }
+        grep -F -- "$k" "$work/res$n.txt" | head -1 | cut -c1-$W
+      done <<< "$new"
+    fi
   } > "$work/out$n.txt"
   rm -rf "$d" "$work/ev$n"
 }
